@@ -227,3 +227,4 @@ fn propval_read_any() {
         }
     }
 }
+
